@@ -1,5 +1,6 @@
 import BddVerif.Lemmas.ParserPrint
 import BddVerif.Lemmas.ParserFlat
+import BddVerif.Lemmas.ParserRefParse
 /-!
 # C14 — the expression parser is total and implements the documented grammar
 
@@ -209,6 +210,59 @@ theorem rejected_iff_not_flat_grammar (s : List Char) :
       exact absurd ⟨fl, e, hl, hd⟩ h
     | err m => rfl
     | panic m => rw [hr] at hp; simp [Outcome.isPanic] at hp
+
+/-! ### the driver's reference parser is a proved decision procedure of the grammar clause -/
+
+/-- the reference lexer (accumulator style, own whitespace and reserved-character tables) computes the flat
+    lexing of the theorems and fails exactly on a lexical error -/
+theorem reference_lexer_eq (s : List Char) :
+    ParserRef.refLex s [] [] =
+      match lexFlat s with
+      | (fl, none) => some (fl.map ParserRef.conv)
+      | (_, some _) => none := ParserRef.refLex_eq s
+
+/-- soundness of the recursive descent at every fuel and level: a returned tree is a flat derivation of the
+    consumed prefix -/
+theorem reference_descent_sound (f n : Nat) (hn : n ≤ 6) (ts : List ParserRef.FTok) (e : Expr)
+    (rest : List ParserRef.FTok) (h : ParserRef.refParse f n ts = some (e, rest)) :
+    ∃ pre : List FT, ts = pre.map ParserRef.conv ++ rest ∧ DerF n pre e :=
+  ParserRef.refParse_sound f n hn ts e rest h
+
+/-- completeness with the explicit fuel bound: a level-`n` derivation of `pre`, followed by anything the
+    level-`n` parser does not absorb, is found with fuel `8 * pre.length + n + 1` or more -/
+theorem reference_descent_complete (n : Nat) (pre : List FT) (e : Expr) (h : DerF n pre e)
+    (rest : List ParserRef.FTok) (f : Nat) (hfol : ParserRef.Follow n rest) (hf : 8 * pre.length + n + 1 ≤ f) :
+    ParserRef.refParse f n (pre.map ParserRef.conv ++ rest) = some (e, rest) :=
+  ParserRef.refParse_complete h rest f hfol hf
+
+/-- on whole strings: with fuel at least `8 * length + 7` — the driver passes `8 * length + 16` — the descent
+    returns `(e, [])` exactly for the derivations of the flat grammar -/
+theorem reference_descent_iff (fl : List FT) (e : Expr) (f : Nat) (hf : 8 * fl.length + 7 ≤ f) :
+    ParserRef.refParse f 6 (fl.map ParserRef.conv) = some (e, []) ↔ DerF 6 fl e :=
+  ParserRef.refParse_iff fl e f hf
+
+/-- **The reference parser decides the flat grammar**, for all strings -/
+theorem reference_iff_flat_grammar (s : List Char) (e : Expr) :
+    ParserRef.reference s = some e ↔ ∃ fl, lexFlat s = (fl, none) ∧ DerF 6 fl e :=
+  ParserRef.reference_iff s e
+
+/-- it rejects exactly what has a lexical error or no derivation -/
+theorem reference_none_iff (s : List Char) :
+    ParserRef.reference s = none ↔ ¬ ∃ fl e, lexFlat s = (fl, none) ∧ DerF 6 fl e := by
+  constructor
+  · rintro h ⟨fl, e, hl, hd⟩
+    rw [(ParserRef.reference_iff s e).mpr ⟨fl, hl, hd⟩] at h; cases h
+  · intro h
+    cases hr : ParserRef.reference s with
+    | none => rfl
+    | some e =>
+      obtain ⟨fl, hl, hd⟩ := (ParserRef.reference_iff s e).mp hr
+      exact absurd ⟨fl, e, hl, hd⟩ h
+
+/-- **The reference parser and the model of the real parser agree on every string**: the driver's
+    predicate "observed parse result = reference parser's result" is a proved decision of the grammar clause. -/
+theorem reference_eq_parse (s : List Char) : ParserRef.reference s = (parse s).toOption :=
+  ParserRef.reference_eq_parse s
 
 /-! ### non-vacuity -/
 
